@@ -75,7 +75,7 @@ def build_forest(n, overs, unders):
         fr.resolve()
     except excepting.ResolveError as ex:
         msg = " ".join(str(a) for a in ex.args)
-        for key, kind in (("Bad over link", "badOver"), ("create loop", "loop"),
+        for key, kind in (("Bad over link", "badOver"), ("unders create loop", "underLoop"), ("create loop", "loop"),
                           ("Bad under", "badUnder"), ("Duplicate under", "dupUnder")):
             if key in msg:
                 return None, "ERR " + kind
@@ -230,7 +230,7 @@ def trace_oracle(prog, lines):
 
 class CHECK(core.Check):
     PROPERTY = "C06"
-    LEAN_MODULES = ["IofloModel.Props.C06"]
+    LEAN_MODULES = ["IofloModel.Props.C06", "IofloModel.Props.C06T"]
     ENGINE = "flo"             # trace part; the pure part talks to the second driver `drv-outline` (see model())
     GENERATED = True           # only used to get `translate()` called in stage A: it builds the second driver
     N_QUICK = 500
@@ -261,17 +261,26 @@ class CHECK(core.Check):
                "oracle (trace part): bracketing, entered set = full outlines of the active framers at every tick boundary, "
                "order/extent of exits, rexits, renters, enters of every run of a scheduled framer, computed from the "
                "implementation's own events with outlines recomputed by harness code"]
-    PARTIAL = ["trace part: the order of a taken transition is proved on the model (C07_transit_taken / "
-               "C08_transit_enters_checked_list); the invariants `enter/exit alternate` and `entered = outlines of the active "
-               "framers` are NOT proved in Lean yet — they are checked by the trace oracle on every generated run and the "
-               "model carries the ghost map `ent` and the flags `dbl`, `left` for them; they are false of the code in the "
-               "regions of the known findings D3c (left = 1) and D3d (shared auxiliaries)"]
+    PARTIAL = ["C06_bracket_step_partial / C06_bracket_reachable_partial: hypothesis `bad2 = false` on the reached state "
+               "(ghost flags: `left` = exitAll or a taken transition worked on a truncated outline, `reenter` = enterAll on a "
+               "still active framer) and static well-formedness WF + WFE (outlines without repetition); the full statement is "
+               "refuted by C06_counterexample_D3c (known finding D3c); shared auxiliaries (known finding D3d) are outside WF",
+               "`enter/exit events alternate` is stated through the ghost map `ent` / flag `dbl`, which the model updates in the "
+               "same step that emits the `.enter` / `.exit` event (noteEnter / noteExit)",
+               "the order of a taken transition (tracts, exits bottom-up, rexits, renters, enters top-down, activation) is "
+               "C07_transit_taken / C08_transit_enters_checked_list; bottom-up / top-down order on the implementation is "
+               "checked by the trace oracle"]
     TECHNIQUE = ("Lean 4 theorems (structural induction over the two outlines; least-index characterisation) + "
                  "differential correspondence against the real staticmethod, the real link resolution and full event traces")
     LEVEL_TEXT = ("Pure part, full proof on the model for all pairs of lists: C06_exen_split (ExEn cuts both outlines at the "
                   "least index where they differ or the target appears, else returns ([],[],nears)), C06_exen_exits_suffix, "
                   "C06_exen_common_prefix, C06_exen_enters_nonempty_iff, C06_exen_target_reentered, C06_exen_first_differs. "
-                  "Trace part: correspondence + trace oracle only (see partial).")
+                  "Trace part (Props/C06T.lean, Lemmas/FloTrace.lean), for every well-formed program, semantics, auxiliary depth "
+                  "and sequence of controls: C06_bracket_step_partial, C06_bracket_reachable_partial (no frame is ever entered "
+                  "while entered or exited while not entered, and the entered frames are exactly the full outlines of the active "
+                  "frames of all framers, suspended frames included, at every boundary where no ghost flag left/reenter is up), "
+                  "C06_bracket_init, C06_inactive_nothing_entered (a stopped/aborted framer has no entered frame). PARTIAL: "
+                  "hypothesis bad2 = false; C06_counterexample_D3c refutes the unrestricted statement.")
     LEVEL_NOTE = ("Trusted: Lean kernel; axioms propext, Classical.choice, Quot.sound; the transcription of Framer.ExEn, of "
                   "the link resolution / outline tracing and of the framer core, validated by the correspondence runs only.")
 
